@@ -134,7 +134,7 @@ def order(ctx):
                 ctx.ob(P, 'RF9d', f, site, None)
                 # what is initialised in the wrong order belongs to these services as well
                 extra = {'COTmrInit': ['C08'], 'CODictObjInit': ['C10', 'C11', 'C16', 'C06'], 'COSdoInit': ['C05'], 'COCSdoInit': ['C19'], 'COEmcyInit': ['C15'],
-                         'COSyncInit': ['C16'], 'CONmtBootup': ['C09']}.get(b, [])
+                         'COSyncInit': ['C16'], 'CONmtBootup': ['C09']}.get(b, []) + {'COEmcyReset': ['C15']}.get(a, [])
                 ctx.find(P + extra, 'RF9d', f, 'order:%s<%s' % (a, b), m.loc(f, m.funcs[f].line), '%s: %s (%s)' % (site, bad, why))
             elif seen_both:
                 ctx.ob(P, 'RF9d', f, site, why)
